@@ -6,6 +6,8 @@ package main
 // model must reproduce byte for byte; lines starting with "! " are oracle verdicts on the implementation.
 
 import (
+	"sync"
+	"time"
 	"bufio"
 	"flag"
 	"fmt"
@@ -27,10 +29,40 @@ type Env struct {
 	Replay string
 	R      *Rng
 	Stats  map[string]int
+	mu     sync.Mutex
+	lastOp string
+	lastAt time.Time
 }
 
-func (e *Env) In(f string, a ...any)  { fmt.Fprintf(e.W, "> "+f+"\n", a...); e.W.Flush() }
-func (e *Env) Obs(f string, a ...any) { fmt.Fprintf(e.W, f+"\n", a...); e.W.Flush() }
+func (e *Env) In(f string, a ...any) {
+	e.mu.Lock()
+	e.lastOp, e.lastAt = fmt.Sprintf(f, a...), time.Now()
+	fmt.Fprintf(e.W, "> "+f+"\n", a...)
+	e.W.Flush()
+	e.mu.Unlock()
+}
+func (e *Env) Obs(f string, a ...any) {
+	e.mu.Lock()
+	e.lastAt = time.Now()
+	fmt.Fprintf(e.W, f+"\n", a...)
+	e.W.Flush()
+	e.mu.Unlock()
+}
+
+// watchdog: an operation of the real application that does not come back (an unmetered loop) would block the suite until the
+// framework's time limit; report it as the hang it is, with the history so far, and end the run
+func (e *Env) watchdog(limit time.Duration) {
+	for {
+		time.Sleep(5 * time.Second)
+		e.mu.Lock()
+		if !e.lastAt.IsZero() && time.Since(e.lastAt) > limit {
+			fmt.Fprintf(e.W, "! no_hang FAIL operation did not return within %s: %s\n", limit, e.lastOp)
+			e.W.Flush()
+			os.Exit(0)
+		}
+		e.mu.Unlock()
+	}
+}
 func (e *Env) Note(f string, a ...any) { fmt.Fprintf(e.W, "# "+f+"\n", a...) }
 func (e *Env) Oracle(check string, ok bool, f string, a ...any) {
 	v := "ok"
@@ -63,6 +95,13 @@ func main() {
 		os.Exit(2)
 	}
 	e := &Env{W: bufio.NewWriterSize(os.Stdout, 1<<16), Seed: *seed, N: *n, Tier: *tier, Replay: *replay, R: NewRng(*seed), Stats: map[string]int{}}
+	if wd := os.Getenv("SVH_WATCHDOG"); wd != "off" && flag.Arg(0) != "halt" {
+		lim := 300 * time.Second
+		if d, err := time.ParseDuration(wd); err == nil && d > 0 {
+			lim = d
+		}
+		go e.watchdog(lim)
+	}
 	f(e)
 	keys := []string{}
 	for k := range e.Stats {
